@@ -388,13 +388,18 @@ fn check_parent(run: &Run, pnode: &Node, cfg: &AlphaCfg, max_batch: usize) {
                     if let Some(d) = a.fee_multiplier_delta.checked_sub(1) {
                         acts.push(("action:delta-1", Some(ProposerAction { fee_multiplier_delta: d, ..*a })));
                     }
-                    acts.push(("action:other-dest", Some(ProposerAction { reward_dest: addr_true(), ..*a })));
+                    let other = if a.reward_dest == addr_true() { action_dest(9).reward_dest } else { addr_true() };
+                    acts.push(("action:other-dest", Some(ProposerAction { reward_dest: other, ..*a })));
                 }
             }
             for (name, a2) in acts {
                 let mut b = blk.clone();
                 b.proposer_action = a2;
-                judge(run, &parent, &b, name, false, &path, &label);
+                // an action added, removed or paid to somebody else is "changing the proposer action" of the second sentence: the
+                // block must be rejected whatever the reward is worth (a reward of zero still names its receiver).  A vote moved by
+                // one unit may leave the multiplier where it was (small multipliers): there the first sentence decides.
+                let must_reject = !name.starts_with("action:delta");
+                judge(run, &parent, &b, name, must_reject, &path, &label);
             }
         }
     });
@@ -419,8 +424,7 @@ fn restarted_parents(run: &Run) {
     for (name, root) in roots {
         let mut running = root;
         for step in 0..5usize {
-            let db = running.raw_coins_smt().database();
-            let rebuilt = match guard(|| melstf::SealedState::from_block(&running.to_block(), &running.raw_stakes(), &db)) {
+            let rebuilt = match guard(|| crate::world::restart_from_disk(&running)) {
                 Ok(r) => r,
                 Err(_) => {
                     run.outcome("restarted-parent:rebuild-panics(reported under C09)");
